@@ -6,7 +6,7 @@ import ast
 
 from ..core.cfg import CFG
 from ..core.repo import (AnalysisError, Repo, call_name, calls_in, definitions, dotted, func_params, is_const,
-                         names_in, param_default, unparse, walk_no_nested_defs, parent)
+                         kwarg, names_in, param_default, unparse, walk_no_nested_defs, parent)
 
 VEC = "quantem.core.datastructures.vector"
 VAL = "quantem.core.utils.validators"
@@ -435,6 +435,28 @@ def run(check, repo: Repo) -> None:
     # In the slicing arm of __getitem__ every value stored into the result nest must be a cell reached by walking self._data with
     # the per-axis index.  Going through get_data() is not equivalent: it returns the bare cell (not a one-element list) when the
     # selection has exactly one cell, so `cells[k]` then denotes a ROW of that cell.
+    # enumeration order of the addressed cells: np.ndindex / itertools.product / nested loops are row-major over the index arrays; np.meshgrid
+    # is row-major only with indexing='ij' — its default 'xy' exchanges the first two axes, so the k-th returned cell is not the k-th addressed one.
+    def _xy_meshgrids(fn_):
+        out = []
+        for c_ in calls_in(fn_):
+            if (call_name(c_) or "") in ("np.meshgrid", "numpy.meshgrid") and (len(c_.args) >= 2 or any(isinstance(a_, ast.Starred) for a_ in c_.args)):
+                ix = kwarg(c_, "indexing")
+                if ix is None or not is_const(ix, "ij"):
+                    out.append(c_)
+        return out
+    probe_ = ast.parse("def f(a):\n    for s in zip(*(g.ravel() for g in np.meshgrid(*a))):\n        pass\n").body[0]
+    if len(_xy_meshgrids(probe_)) != 1:
+        raise AnalysisError("C11-R8 self-test: the meshgrid recogniser does not match its positive example")
+    n_enum = 0
+    for mname_, fn_ in methods.items():
+        enum_ = [c_ for c_ in calls_in(fn_) if (call_name(c_) or "").split(".")[-1] in ("ndindex", "product", "meshgrid")]
+        n_enum += len(enum_)
+        for c_ in _xy_meshgrids(fn_):
+            check.violated("C11-R8", f"Vector.{mname_}: addressed cells are enumerated in row-major order of the index arrays",
+                           f"`{unparse(c_)[:60]}` uses meshgrid's default indexing='xy': the first two fixed axes are exchanged, the flat order of the cells is column-major over them",
+                           mod.line(c_), definite=True)
+    check.floor("cell enumerations (ndindex / product / meshgrid) in Vector", n_enum, 3)
     gi = methods["__getitem__"]
     stores = []
     for lp in [n for n in walk_no_nested_defs(gi) if isinstance(n, ast.For)]:
@@ -487,3 +509,5 @@ MANIFEST = {
     "technique": "CFG dominance of guards + reachability (failure atomicity) + sibling/traversal shape agreement (AST)",
 }
 MANIFEST["text"] += " Also: in slicing/fancy selection the stored value is the source cell reached by walking self._data (provenance), never an element of an accessor's return value (R8)."
+MANIFEST["text"] += ' An explicit raise reachable from the schema store with no restoring store in between is a CFG fact and is reported as definite.'
+MANIFEST["text"] += " R8 also: cells are enumerated row-major over the index arrays — np.meshgrid without indexing='ij' exchanges the first two axes (recogniser self-tested on an embedded positive example each run)."
